@@ -19,6 +19,8 @@ var (
 	L  = &Leaky{}
 	Cf = NewConf()
 	CL = &CondLock{m: map[int]int{}}
+	CG = &CondGuard{m: map[int]int{}}
+	CB = &CondGuardBad{m: map[int]int{}}
 )
 
 // Good: a mutex held at every access (defer and explicit unlock), map element writes included.
@@ -233,6 +235,50 @@ func (c *CondLock) Has(k int) bool {
 	_, ok := c.m[k]
 	return ok
 }
+
+// CondGuard: the same discipline written with a guard clause and a helper that needs the lock held (accepted).
+type CondGuard struct {
+	mu sync.RWMutex
+	m  map[int]int
+}
+
+func (c *CondGuard) Del(k int, lock bool) {
+	if !lock {
+		c.drop(k)
+		return
+	}
+	c.mu.Lock()
+	c.drop(k)
+	c.mu.Unlock()
+}
+func (c *CondGuard) drop(k int) { delete(c.m, k) }
+func (c *CondGuard) Clear() {
+	c.mu.Lock()
+	for k := range c.m {
+		c.Del(k, false)
+	}
+	c.mu.Unlock()
+}
+func (c *CondGuard) One(k int) { c.Del(k, true) }
+
+// CondGuardBad: one caller passes false without holding the lock (flagged).
+type CondGuardBad struct {
+	mu sync.RWMutex
+	m  map[int]int
+}
+
+func (c *CondGuardBad) Del(k int, lock bool) {
+	if !lock {
+		c.drop(k)
+		return
+	}
+	c.mu.Lock()
+	c.drop(k)
+	c.mu.Unlock()
+}
+func (c *CondGuardBad) drop(k int) { delete(c.m, k) }
+func (c *CondGuardBad) Sloppy(k int) { c.Del(k, false) }
+func (c *CondGuardBad) One(k int)    { c.Del(k, true) }
 
 // Local: never leaves the goroutine that created it (confined: not flagged whatever it does).
 type Local struct{ n int }
